@@ -24,12 +24,13 @@ import (
 )
 
 var (
-	repo   = flag.String("repo", "/repo", "repository root")
-	outDir = flag.String("out", "", "output directory (coq/Generated)")
+	repo        = flag.String("repo", "/repo", "repository root")
+	outDir      = flag.String("out", "", "output directory (coq/Generated)")
 	fallbackDir = flag.String("fallback", "", "directory with the last committed good copies of the generated files")
-	fset   = token.NewFileSet()
-	files  = map[string]*ast.File{}
-	errs   []string
+	baseFile    = flag.String("base", "", "funchash.base.json of the clean tree (functions not listed there and called from one place are inlined into their caller)")
+	fset        = token.NewFileSet()
+	files       = map[string]*ast.File{}
+	errs        []string
 )
 
 func fail(format string, a ...any) { errs = append(errs, fmt.Sprintf(format, a...)) }
@@ -99,7 +100,7 @@ func findFunc(rel, recv, name string) *ast.FuncDecl {
 			r = recvName(fd.Recv.List[0].Type)
 		}
 		if r == recv {
-			return fd
+			return inlineHelpers(rel, fd)
 		}
 	}
 	fail("%s: no func %s.%s", rel, recv, name)
@@ -321,6 +322,7 @@ func (g *gen) def(name, typ, term, comment string) {
 	c := strings.NewReplacer("(*", "( *", "*)", "* )", "\"", "'").Replace(comment)
 	fmt.Fprintf(&g.buf, "(* %s *)\nDefinition %s : %s := %s.\n", c, name, typ, term)
 }
+
 // write stores the generated file. If this generator reported an error (a
 // symbol or idiom it needs is gone: a broken tie, reported by exit status 1),
 // the last good file is kept — or restored from the committed fallback copy —
@@ -489,6 +491,9 @@ func main() {
 		os.Exit(2)
 	}
 	_ = os.MkdirAll(*outDir, 0o755)
+	if *baseFile != "" {
+		loadBaseFuncs(*baseFile)
+	}
 
 	genTransport()
 	genRegexes()
